@@ -28,7 +28,7 @@ ASSUMPTIONS = [
 ]
 REQUIRED = ["msolve.solve_judged", "msolve.key_decided", "msolve.key_undecided", "c02.route.z3", "c02.route.adv",
             "c02.route.native", "c02.tables_compared", "c02.unsat_programs", "c02.iter.ge3",
-            "c02.keys.none", "c02.keys.all", "c02.keys.some", "c02.chooser.stubborn", "c02.chooser.scatter", "c02.followup_solves"]
+            "c02.keys.none", "c02.keys.all", "c02.keys.some", "c02.chooser.stubborn", "c02.chooser.scatter", "c02.followup_solves", "c02.ast_facts_checked"]
 CHOOSERS = ["first", "last", "random", "stubborn", "scatter"]
 NATIVE = ["sugar_extended", "csugar", "enigma_csp", "cspuz_core"]
 
@@ -78,6 +78,23 @@ def run_route(ctx, st, case, route, backend):
         return None
     judged = st.last.get("judged")
     table = [vars_[i].sol for i in case["keys"]] if res else None
+    if st.fired == fired0:
+        # independent of Solver's own bookkeeping (is_answer_key, stored bounds): the program and the key set as WRITTEN
+        models = progs.ast_models(p["decls"], p["constraints"], cap=1 << 13)
+        if models is not None:
+            ctx.count("c02.ast_facts_checked")
+            if bool(models) != bool(res):
+                ctx.violation("ast-facts:wrong-sat", f"solve via {route} returned {res}, the program as written has {len(models)} models", ctx.current_case)
+                return None
+            if res:
+                for i in case["keys"]:
+                    vs_ = {m[i] for m in models}
+                    want = next(iter(vs_)) if len(vs_) == 1 else None
+                    got = vars_[i].sol
+                    if got != want or type(got) is not type(want):
+                        ctx.violation("ast-facts:key-" + ("overclaimed" if want is None else "underclaimed" if got is None else "wrong-value"),
+                                      f"solve via {route}: registered key #{i} reported {got!r}, the program as written gives {want!r}", ctx.current_case)
+                        return None
     if case.get("followup") is not None and st.fired == fired0:
         # history: same Solver object, one more constraint, solve again (and find_answer in between half of the time)
         try:
